@@ -59,6 +59,29 @@ func c10Scenarios(thorough bool) []*scenario {
 			{{Kind: "auth", User: "u", Pw: "old"}, {Kind: "auth", User: "u", Pw: "bad"}},
 		}})
 	}
+	// many successful logins of upgradeable users while the upgrade master stalls: every
+	// queue of the remote-upgrade path (upgrade queue, in-flight limiter) fills up
+	for _, k := range caps {
+		for _, up := range []string{"remote-stall", "remote-ok", "local"} {
+			if k == 2 && !thorough {
+				continue
+			}
+			var cl [][]cop
+			for i := 0; i < 3+2*k; i++ {
+				cl = append(cl, []cop{{Kind: "auth", User: "u", Pw: "old"}})
+			}
+			cl = append(cl, []cop{{Kind: "list"}})
+			out = append(out, &scenario{Name: fmt.Sprintf("scaled-k%d-up[%s]-many-logins", k, up), Upgrades: up, CapLimit: k, Default: 1, Users: stdUsers, Clients: cl, NoUpgradeEffect: true})
+		}
+	}
+	{
+		var cl [][]cop
+		for i := 0; i < 24; i++ {
+			cl = append(cl, []cop{{Kind: "auth", User: "u", Pw: "old"}})
+		}
+		cl = append(cl, []cop{{Kind: "list"}})
+		out = append(out, &scenario{Name: "truecap-up[remote-stall]-24-logins", Upgrades: "remote-stall", Default: 1, Users: stdUsers, Clients: cl})
+	}
 	// true capacities: 11 identical updaters (one more than the queue holds) + logins
 	for _, up := range []string{"local", "", "remote-stall"} {
 		var cl [][]cop
@@ -76,6 +99,17 @@ func c10Scenarios(thorough bool) []*scenario {
 
 func c10Modes(sc *scenario, thorough bool) []mc.Options {
 	var out []mc.Options
+	if strings.Contains(sc.Name, "many-logins") {
+		// identical clients are only reduced by symmetry while unstarted: bounded search
+		b := 2
+		if thorough {
+			b = 3
+		}
+		for order := 0; order < 4; order++ {
+			out = append(out, mc.Options{Bound: b, AllCost: true, Order: order, MaxSteps: 4000})
+		}
+		return out
+	}
 	if strings.HasPrefix(sc.Name, "truecap") {
 		b := 1
 		if thorough {
@@ -105,12 +139,15 @@ func c10Modes(sc *scenario, thorough bool) []mc.Options {
 
 func c10Harness(sc *scenario) mc.Harness {
 	root := rootBody(sc)
-	if strings.HasPrefix(sc.Name, "truecap") {
+	if strings.HasPrefix(sc.Name, "truecap") || strings.Contains(sc.Name, "many-logins") {
 		// identical updaters form one symmetry class
 		root = func() {
 			rootBodyWith(sc, func(i int, ops []cop) string {
 				if len(ops) == 1 && ops[0].Kind == "update" {
 					return "updater"
+				}
+				if len(ops) == 1 && ops[0].Kind == "auth" {
+					return "login"
 				}
 				return ""
 			})()
